@@ -4,6 +4,8 @@ import HmcVerif.Real.Grad2
 import Mathlib.Analysis.Calculus.Deriv.Abs
 import Mathlib.Analysis.Calculus.Deriv.Pow
 import Mathlib.Tactic.Ring
+import Mathlib.Algebra.BigOperators.Field
+import Mathlib.Tactic.FieldSimp
 import Mathlib.Tactic.Linarith
 /-
   C05 — gradient() is the derivative of misfit() for every distribution.
@@ -162,6 +164,58 @@ theorem additive_after_add (terms : List (((ι → ℝ) → ℝ) × (ι → ℝ)
 /-! ### non-vacuity -/
 example : ∀ i : Fin 2, (![1, 2] : Fin 2 → ℝ) i ≠ (![0, 0] : Fin 2 → ℝ) i := by
   intro i; fin_cases i <;> simp
+
+/-! ### LayeredRayTracing2D: the travel-time misfit and its derivative with respect to the synthetic
+    travel times (the chain rule to the layer velocities goes through the per-layer path lengths of
+    C18: `∂tt/∂v_l = −L_l / v_l²`) -/
+
+/-- `LayeredRayTracing2D._misfit` as a function of the residuals `r = tts_syn − tts_obs` (no NaN):
+    `Σ (rᵢ − mean r)² / σ²` — a sum of squares without a factor ½ -/
+noncomputable def rayMisfit {n : Nat} (sigma : ℝ) (r : Fin n → ℝ) : ℝ :=
+  (∑ i, (r i - (∑ j, r j) / n) ^ 2) / sigma ^ 2
+
+/-- `_dmisfitdsyn`: `2 (rⱼ − mean r) / σ²` -/
+noncomputable def rayDMisfit {n : Nat} (sigma : ℝ) (r : Fin n → ℝ) (j : Fin n) : ℝ :=
+  2 * (r j - (∑ k, r k) / n) / sigma ^ 2
+
+theorem centered_sum_zero {n : Nat} (hn : n ≠ 0) (r : Fin n → ℝ) : ∑ i, (r i - (∑ j, r j) / n) = 0 := by
+  have hn' : (n : ℝ) ≠ 0 := Nat.cast_ne_zero.mpr hn
+  rw [Finset.sum_sub_distrib, Finset.sum_const, Finset.card_univ, Fintype.card_fin, nsmul_eq_mul]
+  field_simp
+  ring
+
+/-- exact second-order expansion of the travel-time misfit along any perturbation `δ` of the synthetic
+    travel times: the first-order coefficient is `Σⱼ _dmisfitdsyn(r)ⱼ δⱼ`. Hence `_dmisfitdsyn` is the
+    derivative of `_misfit` (factor 2 included), for every data set and every number of receivers. -/
+theorem rayMisfit_expand {n : Nat} (hn : n ≠ 0) (sigma : ℝ) (r δ : Fin n → ℝ) (ε : ℝ) :
+    rayMisfit sigma (fun i => r i + ε * δ i) =
+      rayMisfit sigma r + ε * (∑ j, rayDMisfit sigma r j * δ j) + ε ^ 2 * rayMisfit sigma δ := by
+  have hn' : (n : ℝ) ≠ 0 := Nat.cast_ne_zero.mpr hn
+  have hc := centered_sum_zero hn r
+  set mr := (∑ j, r j) / n with hmr
+  set md := (∑ j, δ j) / n with hmd
+  have hmean : (∑ j, (r j + ε * δ j)) / n = mr + ε * md := by
+    rw [Finset.sum_add_distrib, ← Finset.mul_sum, hmr, hmd]; ring
+  have hcross : ∑ i, (r i - mr) * (δ i - md) = ∑ i, (r i - mr) * δ i := by
+    have : ∑ i, (r i - mr) * (δ i - md) = ∑ i, (r i - mr) * δ i - md * ∑ i, (r i - mr) := by
+      rw [Finset.mul_sum, ← Finset.sum_sub_distrib]; apply Finset.sum_congr rfl; intro i _; ring
+    rw [this, hc]; ring
+  have hsq : ∑ i, (r i + ε * δ i - (mr + ε * md)) ^ 2
+      = ∑ i, (r i - mr) ^ 2 + 2 * ε * ∑ i, (r i - mr) * (δ i - md) + ε ^ 2 * ∑ i, (δ i - md) ^ 2 := by
+    rw [Finset.mul_sum, Finset.mul_sum, ← Finset.sum_add_distrib, ← Finset.sum_add_distrib]
+    apply Finset.sum_congr rfl; intro i _; ring
+  unfold rayMisfit rayDMisfit
+  simp only [hmean, ← hmr, ← hmd]
+  rw [hsq, hcross]
+  have : ∑ j, 2 * (r j - mr) / sigma ^ 2 * δ j = (2 * ∑ j, (r j - mr) * δ j) / sigma ^ 2 := by
+    rw [Finset.mul_sum, Finset.sum_div]; apply Finset.sum_congr rfl; intro i _; ring
+  rw [this]; ring
+
+
+/-- non-vacuity: three receivers, the expansion at a concrete point -/
+example : rayMisfit 1 (fun i : Fin 3 => ((i : ℕ) : ℝ) + 2 * 1) = rayMisfit 1 (fun i : Fin 3 => ((i : ℕ) : ℝ))
+    + 2 * (∑ j, rayDMisfit 1 (fun i : Fin 3 => ((i : ℕ) : ℝ)) j * 1) + 2 ^ 2 * rayMisfit 1 (fun _ : Fin 3 => (1 : ℝ)) :=
+  rayMisfit_expand (by decide) 1 _ _ 2
 
 end C05
 end HmcVerif
